@@ -333,6 +333,10 @@ pub fn run_side_effect_analysis(cfg: &Cfg) -> ReportCollection {
         if source.to_string() == "_" {
             continue;
         }
+        // The same holds for the loop counters introduced for anonymous components.
+        if source.name().is_generated_counter() {
+            continue;
+        }
         if !variables_read.contains(source.name()) {
             // Input and output signals are read outside the template.
             if exported_signals.contains(source.name()) {
